@@ -51,7 +51,11 @@ def run(ctx):
     if q:
         sel = bh.stratified_sample(ctx.rng, both, 260) + ctx.rng.sample(rest, min(len(rest), 40))
     else:
-        sel = both + ctx.rng.sample(rest, 1500)
+        # sized from CPU time (about 0.14 s per amplified case): every both-sides-changed triple of the {v1,v2} space, a sample
+        # of the {NULL,v1} space and of the short-circuit triples
+        b1 = [c for c in tri if c["left"] != c["base"] and c["right"] != c["base"] and c["left"] != c["right"]]
+        b0 = [c for c in tri0 if c["left"] != c["base"] and c["right"] != c["base"] and c["left"] != c["right"]]
+        sel = b1 + ctx.rng.sample(b0, min(len(b0), 3000)) + ctx.rng.sample(rest, 1000)
         ctx.cov["exhaustive"] = True
     amps = AMPS_Q if q else AMPS_T
     weights = [5, 6, 3, 1] if q else [50, 40, 8, 1.5, 0.25, 0.25]
@@ -67,7 +71,7 @@ def run(ctx):
                        "rows, conflicts, num_conflicts, dolt_diff_stat and merge.MergeStats compared between the two tables and with the model in both "
                        "directions; evaluations = compared model rows / conflicts / statistics; non-trivial = both sides changed the table differently (no "
                        "table-level short circuit, so the fast path really runs); distinct by (base,left,right). "
-                       + ("exhaustive: every triple of the two 15 625-triple spaces in which both sides changed the table, plus 1 500 short-circuit triples"
+                       + ("exhaustive: every triple of the 15 625-triple {v1,v2} space in which both sides changed the table differently; plus 3 000 such triples of the {NULL,v1} space and 1 000 short-circuit triples"
                           if not q else "quick: TLC prints a random 1/25 of each space"))
     ctx.assumptions += ["which path a table takes is decided by reading canFastMergeProllyTrees (merge_prolly_rows.go:260): no hook observes it; the only observable "
                         "trace of the path is merge.MergeStats itself (the fast path never counts Adds/Modifications/Deletes)",
